@@ -1,17 +1,19 @@
 /-
 Property C17 — SQL conform is idempotent, content-preserving, keeps SELECT markers coherent.
 
-Claimed at translation_validation level: the join case of `_append_binary_to_select` (stripping and
-re-projecting the operands) is validated by correspondence and by running every conformed tree on
-SQLite, not proved.  PROVED for join-free trees, for every recursion budget (no bound on depth):
-  * `conform_preserves_rows_joinfree`: conforming a raw well-formed SQL tree of leaves,
-    materializations, transfers, the seven unary operations and chains returns a coherent `Select`
+PROVED for every recursion budget (no bound on depth):
+  * `conform_preserves_rows`: conforming a raw well-formed SQL tree of leaves, materializations,
+    transfers, the seven unary operations, chains and joins returns a coherent `Select`
     (`SelOK`: flagged compound iff its skip target is a chain, recorded slots well-formed, the marked
     relation has the rows  slice(dedup(proj(sort(skip target))))) with the same rows, columns and engine;
   * `append_unary_to_select_sound`: each of the seven cases of `_append_unary_to_select` (merge into
     the recorded slots, apply below the slots, nest in a subquery, push a projection into the branches
     of a UNION) returns a coherent Select with exactly the rows of the operation applied to the given one;
-  * `sql_apply_sound_joinfree`: `operation.apply(target)` inside the SQL engine does the same.
+  * `sql_apply_sound`: `operation.apply(target)` (a unary operation) inside the SQL engine does the same;
+  * `join_of_selects_sound` (Lemmas/ConformSound.lean `join_sel_sound`): `_append_binary_to_select(Join)`
+    - stripping the operands' projections, guarding hidden columns, re-projecting - yields the join.
+Not proved (validated by correspondence + structural oracle + SQLite): the `join` factory's own path
+(`PartialJoin` through `apply`), and that its result is already conformed.
 Further SUPPORTING theorems about the model:
   * conforming a `Select` returns the same object (`conform_select_is_same`): with "every SQL-engine
     relation the factories return is a Select" (validated) this is idempotence;
@@ -59,17 +61,17 @@ theorem conform_marker_wraps (σ : Leaves) (st : Store) (fuel : Nat) (r : Rel)
     simp [applySkipSpec, optStep]
   cases r <;> simp at hm <;> (rw [conform]; simp [hskip, bind, Except.bind, pure, Except.pure, sem])
 
-/-- **Conform preserves rows and yields a coherent marker** on every raw join-free SQL tree. -/
-theorem conform_preserves_rows_joinfree (σ : Leaves) (st : Store) (fuel : Nat) (t : Rel) (res : Res)
+/-- **Conform preserves rows and yields a coherent marker** on every raw SQL tree. -/
+theorem conform_preserves_rows (σ : Leaves) (st : Store) (fuel : Nat) (t : Rel) (res : Res)
     (hwf : t.WF) (htr : t.Truthful σ) (hraw : t.RawSql) (h : conform st fuel t = .ok res) :
     ConformOK σ t (res.get t) :=
   ((treeBuild_sound σ st fuel).conform t res (raw_good σ t hwf htr hraw) h).2
 
 /-- ... and conforming the result again returns the same object. -/
-theorem conform_idempotent_joinfree (σ : Leaves) (st : Store) (fuel fuel' : Nat) (t : Rel) (res : Res)
+theorem conform_idempotent (σ : Leaves) (st : Store) (fuel fuel' : Nat) (t : Rel) (res : Res)
     (hwf : t.WF) (htr : t.Truthful σ) (hraw : t.RawSql) (h : conform st fuel t = .ok res) :
     conform st (fuel'+1) (res.get t) = .ok .same := by
-  have ok := (conform_preserves_rows_joinfree σ st fuel t res hwf htr hraw h).ok
+  have ok := (conform_preserves_rows σ st fuel t res hwf htr hraw h).ok
   have hs := ok.isSel
   cases hr : res.get t <;> simp [hr, Rel.isSelect] at hs
   rw [conform]
@@ -82,9 +84,9 @@ theorem append_unary_to_select_sound (σ : Leaves) (st : Store) (fuel : Nat) (op
     (h : appendUnarySel st (fuel+1) (.u op) S = .ok res) : AppendOK σ op S (res.get S) :=
   (appendUnarySel_sound σ st fuel op S res hS hop hpush h).1
 
-/-- **`operation.apply(target)` inside the SQL engine** (default options) on a raw join-free tree:
+/-- **`operation.apply(target)` inside the SQL engine** (default options) on a raw tree:
 the result is well-formed and has exactly the rows and columns of the operation applied to the target. -/
-theorem sql_apply_sound_joinfree (σ : Leaves) (st : Store) (fuel : Nat) (op : UOp) (t : Rel) (res : Res)
+theorem sql_apply_sound (σ : Leaves) (st : Store) (fuel : Nat) (op : UOp) (t : Rel) (res : Res)
     (hwf : t.WF) (htr : t.Truthful σ) (hraw : t.RawSql) (h : applyOp st fuel (.u op) t {} = .ok res) :
     FinishOK σ op t (res.get t) :=
   ((treeBuild_sound σ st fuel).apply op t res (raw_good σ t hwf htr hraw) h).2
@@ -104,10 +106,22 @@ example : ({ sort := [⟨.ref tb, false⟩], proj := some [ta], sliceStop := som
 private def raw0 : Rel :=
   .unary (.slice 1 (some 3)) (.unary (.sort [⟨.ref tb, false⟩]) (.binary .chain leaf0 leaf0 [ta, tb]) [ta, tb]) [ta, tb]
 example : raw0.WF := ⟨⟨⟨trivial, trivial, rfl, fun _ => Iff.rfl⟩, rfl, by decide⟩, rfl, by decide⟩
-example : raw0.RawSql := ⟨rfl, rfl, rfl⟩
+example : raw0.RawSql := ⟨rfl, rfl, trivial⟩
 /-- conform succeeds on it, with a compound Select recording the sort and the slice -/
 example : (conform [] 20 raw0).toOption.map
     (fun r => ((r.get raw0).isSelect, (r.get raw0).isCompound, (r.get raw0).slots.sliceStart,
       (r.get raw0).slots.sort.length)) = some (true, true, 1, 1) := by decide
+
+private def tc : Tag := ⟨"c", false⟩
+private def leaf1 : Rel := .leaf 2 e0 [ta, tc] "M" 0 none true 0
+private def j0 : JoinOp := ⟨.lit true, [ta], some [ta]⟩
+/-- a join whose left operand hides column `b` behind a projection -/
+private def raw1 : Rel := .binary (.join j0) (.unary (.proj [ta]) leaf0 [ta]) leaf1 [ta, tc]
+example : raw1.WF := ⟨⟨trivial, rfl, by decide⟩, trivial, by decide, by decide, by decide⟩
+example : raw1.RawSql := ⟨rfl, rfl, by decide, rfl⟩
+/-- conform strips the projection for the join and re-projects afterwards -/
+example : (conform [] 20 raw1).toOption.map
+    (fun r => ((r.get raw1).isSelect, (r.get raw1).slots.proj, (r.get raw1).skipTo.columns)) =
+      some (true, some [ta, tc], [ta, tb, tc]) := by decide
 
 end DafRel.Props.C17
